@@ -767,6 +767,29 @@ class FullOps(TorchCalls):
                     self.clear("z", "torch.linalg.pinv of a matrix with a column axis uses the default tolerance max(m, n)·eps, which grows with the number of columns", node)
                 zz = False
             return a0.but(axes=(a0.axes[1], a0.axes[0]), deg=deg_scale(a0.deg, -1), alias=False, z=zz)
+        if fn in ("cholesky", "cholesky_ex") and len(a0.axes) == 2:
+            # A = L·Lᵀ. The factor itself is not equivariant under a simultaneous permutation of rows and columns; what is done with it
+            # (cholesky_solve) is, when A is positive definite. It exists only for positive definite A: a bare Gramian J·Jᵀ is singular as soon
+            # as rows are linearly dependent, and then the factorisation fails or 'succeeds' on rounding noise.
+            if fn == "cholesky":
+                self.interp.may_raise(["LinAlgError", "RuntimeError"], node, "cholesky")
+            bare = a0.origin <= frozenset(["matrix"]) or all(o == "matrix" or o.startswith(("matmul#", "gramian")) for o in a0.origin)
+            L = self.tag(a0.but(alias=False, poly=None, deg=deg_scale(a0.deg, Fraction(1, 2)) if a0.deg is not None else None, note="cholesky-factor"), "cholesky", node,
+                         in_origin=sorted(a0.origin), bare_gramian=bool(bare and a0.deg == Fraction(2)), p_in=a0.p, q_in=a0.q, s_in=a0.s, z_in=a0.z, deg_in=str(a0.deg))
+            self._chol_src = getattr(self, "_chol_src", {})
+            tid_ = next((o for o in L.origin if o.startswith("cholesky#")), None)
+            self._chol_src[tid_] = a0
+            if fn == "cholesky_ex":
+                return ListV(items=(L, TV(kind=kind, axes=(), deg=F0, dtype="Int", origin=a0.origin, note="cholesky-info")), kind="tuple")
+            return L
+        if fn == "cholesky_solve" and len(args) >= 2 and tv_of(args[1]) is not None:
+            L = tv_of(args[1])
+            tid_ = next((o for o in L.origin if o.startswith("cholesky#")), None)
+            src = getattr(self, "_chol_src", {}).get(tid_)
+            if src is None:
+                return self.unk("cholesky_solve with a factor of unknown provenance", node)
+            # solves A x = b with A = L·Lᵀ: typed like solve(A, b)
+            return self.matmul(src.but(axes=(src.axes[1], src.axes[0]), deg=deg_scale(src.deg, -1)), a0, node)
         if fn in ("solve", "lstsq"):
             b = tv_of(args[1])
             return self.matmul(a0.but(axes=(a0.axes[1], a0.axes[0]), deg=deg_scale(a0.deg, -1)), b, node)
